@@ -178,12 +178,14 @@ def aftersign_case(cfg, d, hhex):
     zc = (z + M61) if z + M61 < 2 ** (8 * len(h)) else (z - M61)
     hc = zc.to_bytes(len(h), "big") if len(h) and zc >= 0 else h
     text = h.decode("latin-1")  # the digest as a text string, one character per byte
+    texts = ["0x" + h.hex()[:62], "0X" + h.hex()[:30], h.hex(), "0x1f", "0b1011", "1_000", " 12", "12345678901234567890123456789012"]
     for (v2, r2, s2, h2) in ((v, r, 0, h), (v, r, m.n, h), (v, r, 2 * m.n, b"\x01" * 32), (55 - v, r, s, h), (v, r, s, h),
                              (v, r, s + m.n, h),
                              # arguments whose hash() collides with the honest call just made
                              (v, r, s + M61, h), (v, r, s, hc), (v, r + M61, s, h), (v + M61, r, s, h),
                              (v, r, s + M61 * m.n, h), (v, r, M61 * m.n, h), (v, r, s, h),
-                             (v, r, s, text), (v, r, s, h)):
+                             (v, r, s, text), (v, r, s, h)) + tuple((v, r, s, t) for t in texts) + ((v, r, s, h),) + \
+            tuple((vv, r, s, h) for vv in list(range(-8, 70)) + [255, 256, 27 + 256, 28 + 2 ** 32, 27.0, True] if vv not in (27, 28)):
         z2 = int.from_bytes(h2.encode("latin-1") if isinstance(h2, str) else h2, "big")
         exp = _expected(m, None, v2, r2, s2, z2)
         got = _observe(S, h2, v2, r2, s2)
